@@ -639,7 +639,8 @@ def gen(seed, tier):
 
 
 RULE = ('cases = (generated option set: 2-9 long names with shared prefixes and "no-" prefixes, optional aliases, flag/implicit/required kinds, negatable or not, '
-        'optional alias name; allowUnreg; flags; positional handler mode) x (an intended item list written in randomly chosen valid spellings: --n=v, --n v, --n, '
+        'optional alias name; allowUnreg; flags; positional handler mode; the harness attaches argument name / default / implicit value of each option in an order and subset derived from the case: '
+        'all six orders for implicit-valued options) x (an intended item list written in randomly chosen valid spellings: --n=v, --n v, --n, '
         'unique prefixes down to the shortest, --no-n, -a v, -av, -a, grouped flags with an optional valued alias, positional tokens, unknown tokens, "--" + rest) '
         'run through parseCommandLine (argv rewrite observed) / parseCommandArray / parseCommandString (random bare, single and double quoting with backslash escapes) / '
         'parseCfgFile (blanks, comments, blank lines, continuation lines); error streams: unknown option, ambiguous prefix, missing value, value for a flag, unmapped '
